@@ -667,6 +667,7 @@ def correspondence(ctx):
     from beyond.orbits import Orbit
     sess_reqs, sess_meta = [], []
     for sidx in range(ctx.n(10, 60)):
+        forget_frames()
         _FRAME_SEQ[0] += 1
         # names are not shared between sessions: what an earlier session registered under a name stays in the orientation graph
         # (open finding C17-reregistered-under-other-parent) and the registry model of a session starts empty
@@ -1025,6 +1026,7 @@ def correspondence2(ctx, out, add, d0):
         scale = float(np.linalg.norm(real[3:])) + 1e-30
         add(" ".join(toks), lambda rep, real=list(map(float, real[3:])), inp=inp, scale=scale: cmp_floats(out, "c17-accel", "_accel differs from the loop program run on the same bodies and maneuvers", inp, real, rep, 1e-12 * scale, rtol=1e-9))
     # 11. frame names: which matrix a spelling selects
+    forget_frames()
     xs = [gen_state(rng) for _ in range(3)]
     for name in NAME_POOL + [rng.choice(["q", "Q"]) + rng.choice(["s", "S"]) + rng.choice(["w", "W"]) for _ in range(ctx.n(4, 40))]:
         x = rng.choice(xs)
@@ -1064,6 +1066,7 @@ def correspondence2(ctx, out, add, d0):
     # 12. reference objects of attached frames: sessions over Orbit / Ephem / StateVector references in and out of the parent frame
     world_reqs, world_meta = [], []
     for sidx in range(ctx.n(8, 60)):
+        forget_frames()
         _FRAME_SEQ[0] += 1
         names = [f"C17W{_FRAME_SEQ[0] % 7}{c}" for c in "ab"]
         refs = [gen_reference(rng, d0) for _ in range(3)]
@@ -1276,6 +1279,45 @@ def oracle_projection(out, rng, N):
                              observed=np.array(gotf).tolist(), expected=ref.tolist())
 
 
+def forget_frames(prefix="C17"):
+    """test isolation: take every frame this module registered (names starting with `prefix`) out of the library's global
+    registries — the graph of orientations, the graph of centres, the methods set on the two classes, `frames.dynamic` — and
+    rebuild the routing tables of what remains.  The library only ever adds nodes (open finding
+    C17-reregistered-under-other-parent); without this the graphs would grow with every session of a run."""
+    try:
+        from beyond.frames import orient, center, frames
+
+        def component(root):
+            seen, todo = [], [root]
+            while todo:
+                n = todo.pop()
+                if n in seen:
+                    continue
+                seen.append(n)
+                todo += list(n.neighbors)
+            return seen
+        for root in (orient.EME2000, center.Earth.node):
+            for n in component(root):
+                for nb in list(n.neighbors):
+                    if nb.name.startswith(prefix):
+                        del n.neighbors[nb]
+            rest = component(root)
+            for n in rest:
+                n.routes = {}
+            for _ in range(len(rest) + 1):
+                root._update()
+        for cls in (orient.Orientation, center.Center):
+            for k in list(vars(cls)):
+                if k.startswith(prefix):
+                    delattr(cls, k)
+        for k in list(frames.dynamic):
+            if k.startswith(prefix):
+                del frames.dynamic[k]
+        getattr(orient.LocalOrbitalOrientation, "_attached", {}).clear()
+    except Exception:   # noqa: BLE001  (a changed library may not have these registries: the sessions then run on what there is)
+        pass
+
+
 _FRAME_SEQ = [0]
 
 
@@ -1299,6 +1341,7 @@ def oracle_orbit_frame(out, rng, N):
     from beyond.propagators.kepler import Kepler
     d0 = Date(2020, 5, 24)
     for _ in range(N):
+        forget_frames()
         _FRAME_SEQ[0] += 1
         name = f"C17F{_FRAME_SEQ[0] % 7}"
         dates = [d0 + timedelta(seconds=t) for t in (0.0, q6(rng.uniform(-3000, 3000)), q6(rng.uniform(0, 86400)))]
@@ -1768,6 +1811,7 @@ def oracle_frame_references(out, rng, N):
     from beyond.frames.frames import orbit2frame
     d0 = Date(2020, 5, 24)
     for _ in range(N):
+        forget_frames()
         meta, pristine, live = gen_reference(rng, d0)
         _FRAME_SEQ[0] += 1
         name = f"C17R{_FRAME_SEQ[0]}"     # a fresh name: see oracle_reregistration_parent for names used again
@@ -1784,7 +1828,9 @@ def oracle_frame_references(out, rng, N):
         else:
             live.as_frame(name, **kw)
         fam = f"{meta['kind']}-{meta['frame']}"
-        static_elsewhere = meta["kind"] == "StateVector" and meta["frame"] != "EME2000"
+        # a bare StateVector is a point at its own date: unless everything is EME2000 it is used at that date only (the library
+        # converts it to the parent at its own date and uses the result at the date of the call)
+        static_elsewhere = meta["kind"] == "StateVector" and (meta["frame"] != "EME2000" or parent != "EME2000")
         dates = [d0] if static_elsewhere else [d0, d0 + timedelta(seconds=q6(rng.uniform(-3000, 3000))), d0 + timedelta(seconds=q6(rng.uniform(0, 86400)))]
         for rep in range(2):
             for date in dates:
@@ -1831,6 +1877,7 @@ def oracle_reregistration_parent(out, rng, N):
     from beyond.frames.frames import orbit2frame, get_frame
     d0 = Date(2020, 5, 24)
     for _ in range(N):
+        forget_frames()
         _FRAME_SEQ[0] += 1
         name = f"C17P{_FRAME_SEQ[0]}"
         regs = []
